@@ -240,9 +240,13 @@ ARENA = {
         note='frame and contents proved for allocate/allocate_zeroed/fill, all non-writing operations and every branch of grow(_zeroed)/shrink incl. that the bytes of all other live blocks are untouched'),
     'C03': dict(
         x=['scope-exit-did-not-restore-allocated', 'scope-exit-did-not-restore-position', 'scope-exit-released-a-chunk',
-           'reset-to-start-did-not-rewind-to-the-first-chunk', 'block-contents-changed', 'panic'],
+           'reset-to-start-did-not-rewind-to-the-first-chunk', 'block-contents-changed', 'panic',
+           'reset-loop-requested-with-room', 'reset-loop-keeps-requesting', 'reset-loop-left-more-than-one-chunk',
+           'reset-loop-survivor-shrank', 'reset-loop-bound-exceeded'],
         mism=['stats', 'base-allocator-events'],
-        note='PARTIAL: restoration theorems, invariant preservation (reset_to, alloc_try_with Err, scoped_aligned exit) and replay_needs_no_chunk proved; convergence of a reset() loop not proved (monitored)'),
+        quick_x=(120, 40),
+        search_x=True,
+        note='restoration theorems, invariant preservation (reset_to, alloc_try_with Err, scoped_aligned exit), replay_needs_no_chunk and the convergence of a reset() loop (ArenaLoop: reset_loop_converges, loop_quiet_forever) proved over the model; the statements of the loop lemmas are also evaluated on the implementation (reset-loop probe of arena_x). Partial only in that the model is tied to the code by correspondence and that a base allocator which refuses requests is outside the loop theorem'),
     'C05': dict(
         x=['base-allocator-ledger', 'chunks-not-released-exactly-once-by-drop', 'reset-did-not-keep-exactly-the-largest-chunk',
            'reset-to-start-called-the-base-allocator', 'chunk-outside-granted-block', 'scope-exit-released-a-chunk', 'panic'],
@@ -447,6 +451,10 @@ def check_arena(ctx):
             res_b = run_arena(ctx, runs, ops, seeds, binname='arena' if pid in ARENA_X else 'arena_x')
             if res_b is not None:
                 arena_verdict(ctx, pid, res_b, conf)
+        if res is not None and ctx.tier == 'quick' and conf.get('quick_x') and pid not in ARENA_X:
+            res_q = run_arena(ctx, conf['quick_x'][0], conf['quick_x'][1], seeds, binname='arena_x')
+            if res_q is not None:
+                arena_verdict(ctx, pid, res_q, conf)
         if res is not None:
             rel = arena_verdict(ctx, pid, res, conf)
             if (rel or ctx.problems) and not ctx.violations:
